@@ -465,6 +465,12 @@ def check_instant(env, t, tp, sp, narrow, out):
     if isnum(sp) and not sp < s:
         bad('serials do not increase strictly with time: DATEVALUE(%s) = %r but DATEVALUE(%s) = %r'
             % (tp.isoformat(), sp, t.isoformat(), s), '> %r' % sp, s, None)
+    if post and tp is not None and tp >= MAR1_DT and (t.second % 5 == 0 or t.microsecond):
+        # the comparison operators see the same serial: an instant is after, and not equal to, the one before
+        for f, want in (('xp<xd', True), ('xp=xd', False), ('xd<=xp', False), ('xd<>xp', True)):
+            v, b = val(env, f, {'xp': tp, 'xd': t})
+            if v is not want:
+                bad('%s with xp = %s, xd = %s is %r' % (f, tp.isoformat(), t.isoformat(), v), want, v, b)
     v, b = val(env, 'xd+0', {'xd': t})
     if not near_dt(v, t):
         bad('xd+0 with xd = %s does not return the same date-time (0.5 ms)' % t.isoformat(), enc(t), v, b)
